@@ -71,7 +71,10 @@ def make_exception(name, builder, spec):
         return table[name]()
     import builtins
 
-    cls = getattr(builtins, name, None) or getattr(bellows.exception, name, None) or getattr(ash, name, None)
+    import zigpy.exceptions
+
+    cls = (getattr(builtins, name, None) or getattr(bellows.exception, name, None) or getattr(ash, name, None)
+           or getattr(zigpy.exceptions, name, None))
     if cls is None:
         raise HarnessMismatch(f"cannot build scripted exception {name}")
     return cls("scripted")
